@@ -11,7 +11,7 @@ ASSUMPTIONS = [
 
 
 def bounds(tier):
-    return {'items_N': '3..4' if tier == 'quick' else '3..5', 'sources_k': '<=2' if tier == 'quick' else '<=3',
+    return {'items_N': '1..4' if tier == 'quick' else '1..8', 'sources_k': '<=2' if tier == 'quick' else '<=3',
             'id_length': 1, 'id_alphabet': 'U+0020..U+007E', 'stories': 2,
             'layout': 'storyID[, storySlug][, p] items with one <p> at a symbolic gap [, trailing p]; '
                       'addressed story first or second',
@@ -57,6 +57,16 @@ def cells(tier):
             out.append(mk(op, 4, gap=None, timeout=T))
             out.append(mk(op, 4, k=2, gap=None, rname='multi', timeout=T))
         out.append(mk('EAItemSwap', 4, k=2, gap=None, timeout=T))
+    else:
+        # thorough: six to eight items for the position-sensitive types (no paragraph between them)
+        for n_ in (6, 7, 8):
+            for op in ('roItemMoveMultiple', 'EAItemMove'):
+                out.append(mk(op, n_, gap=None, timeout=T))
+                out.append(mk(op, n_, k=2, gap=None, rname='multi', timeout=T))
+            out.append(mk('EAItemSwap', n_, k=2, gap=None, timeout=T))
+            out.append(mk('roItemReplace', n_, k=2, gap=None, timeout=T))
+            out.append(mk('EAItemDelete', n_, k=2, gap=None, timeout=T))
+        out.append(mk('EAItemMove', 6, k=3, gap=None, rname='multi', timeout=T))
     # the usual replacement: a new version of the replaced item under its own ID, alone or among others
     for op in ('roItemReplace', 'EAItemReplace'):
         for k, j in ((1, 0), (2, 0), (2, 1), (3, 0), (3, 1), (3, 2)):
